@@ -95,6 +95,8 @@ def v1_config(cfg):
     yml = doubles.MODELS_YAML
     if cfg["exc"]:
         yml += "enable_rails_exceptions: true\n"
+    if cfg.get("multi_step"):
+        yml += "enable_multi_step_generation: true\n"
     if cfg["nin"] or cfg["nout"] or cfg.get("single_call") or cfg.get("nret"):
         yml += "rails:\n"
         if cfg["nin"]:
@@ -134,7 +136,7 @@ class Scenario:
         return max(t for t, _ in ms) if ms else None
 
     def _respond(self, task, prompt, llm):
-        t = self._turn_of_prompt(prompt)
+        t = self._turn_of_prompt(prompt) or self.cur_turn   # (very long prompts get their history compressed)
         cur = [x for x in umark(prompt) if x[0] == self.cur_turn]
         self.shared.append(ev("llm", s=task or "", m=cur))
         ans = self._llm_answer(task, prompt, t)
